@@ -519,7 +519,7 @@ def run(rep, tier):
     from vlib import xh
 
     WM = "harness.C18_wire"
-    xres = xh.run_targets([f"{WM}.check_wire_names_snake", f"{WM}.check_wire_names_plain", f"{WM}.check_operation_names", f"{WM}.twin_wire_keyword_input_reached"], timeout=300)
+    xres = xh.run_targets([f"{WM}.check_wire_names_snake", f"{WM}.check_wire_names_plain", f"{WM}.check_operation_names", f"{WM}.check_operation_pairs", f"{WM}.twin_wire_keyword_input_reached"], timeout=300)
     xh.fold(rep, WM, xres)
     rep.coverage["wire_name_harness"] = [{"target": r.target.rsplit(".", 1)[-1], "status": r.status, "paths": r.paths, "wall_s": round(r.wall, 1)} for r in xres]
     rep.coverage.update({
